@@ -25,17 +25,18 @@ type C20Case struct {
 	Nums    map[string]int64 `json:"nums,omitempty"`
 	Bools   map[string]bool  `json:"bools,omitempty"`
 	Dnes    []string         `json:"dnes,omitempty"`
-	GiveAll bool             `json:"give_all,omitempty"` // pass variable maps even when the option is off
+	IntKind int              `json:"int_kind,omitempty"` // Go type the numeric variables are handed over as: 0 int64, 1 int, 2 int32, 3 int16
 }
 
 func genC20(t *rapid.T) C20Case {
 	c := C20Case{
-		Seed:   rapid.Int64().Draw(t, "seed"),
-		Level:  rapid.IntRange(0, depthMax(9, 12)).Draw(t, "level"),
-		Number: rapid.Bool().Draw(t, "number"),
-		Var:    rapid.Bool().Draw(t, "var"),
-		Cond:   rapid.Bool().Draw(t, "cond"),
-		Try:    rapid.Bool().Draw(t, "try"),
+		Seed:    rapid.Int64().Draw(t, "seed"),
+		Level:   rapid.IntRange(0, depthMax(9, 12)).Draw(t, "level"),
+		Number:  rapid.Bool().Draw(t, "number"),
+		Var:     rapid.Bool().Draw(t, "var"),
+		Cond:    rapid.Bool().Draw(t, "cond"),
+		Try:     rapid.Bool().Draw(t, "try"),
+		IntKind: rapid.IntRange(0, 3).Draw(t, "intkind"),
 	}
 	nn := rapid.IntRange(0, 4).Draw(t, "nnums")
 	c.Nums = map[string]int64{}
@@ -72,7 +73,16 @@ func checkC20(c C20Case, r *Rec) *Violation {
 		opts = append(opts, eval.EnableTryEval)
 	}
 	for _, n := range sortedKeys(c.Nums) {
-		opts = append(opts, eval.GenVariables(map[string]interface{}{n: c.Nums[n]}))
+		var raw interface{} = c.Nums[n]
+		switch c.IntKind % 4 { // the documented normalisation makes these the same variable
+		case 1:
+			raw = int(c.Nums[n])
+		case 2:
+			raw = int32(c.Nums[n])
+		case 3:
+			raw = int16(c.Nums[n])
+		}
+		opts = append(opts, eval.GenVariables(map[string]interface{}{n: raw}))
 	}
 	for _, n := range sortedKeys(c.Bools) {
 		opts = append(opts, eval.GenVariables(map[string]interface{}{n: c.Bools[n]}))
@@ -92,7 +102,7 @@ func checkC20(c C20Case, r *Rec) *Violation {
 		return Violf("C20: GenerateRandomExpr panics (seed %d level %d): %v", c.Seed, c.Level, o)
 	}
 	where := func() string {
-		return fmt.Sprintf("seed=%d level=%d number=%v variable=%v condition=%v tryeval=%v nums=%v bools=%v dnes=%v\nexpr=%s\nreported=%v", c.Seed, c.Level, c.Number, c.Var, c.Cond, c.Try, c.Nums, c.Bools, c.Dnes, clip(gen.Expr, 1500), gen.Res)
+		return fmt.Sprintf("seed=%d level=%d number=%v variable=%v condition=%v tryeval=%v nums=%v (handed over as Go type kind %d) bools=%v dnes=%v\nexpr=%s\nreported=%v (%T)", c.Seed, c.Level, c.Number, c.Var, c.Cond, c.Try, c.Nums, c.IntKind, c.Bools, c.Dnes, clip(gen.Expr, 1500), gen.Res, gen.Res)
 	}
 
 	// the reference value: the harness's own reader + R / K
